@@ -14,7 +14,8 @@
    list                                   Intentions
    check <src> <dst> <def> <ap>           source match, destination decision
    authz <peer> <src> <dst> <def> <ap>    destination match, source decision
-   srcs = `-` or comma separated `peer;name;act;perms`; act = a|d|n|b
+   srcs = `-` or comma separated `peer;name;act;perms[;precedence-sent-by-the-client]`; act = a|d|n|b
+   `up` takes an optional sixth token: the Precedence sent by the client
 -/
 import CV.Ixn
 namespace CV.Engine.C13
@@ -32,6 +33,9 @@ def parseSrc (tok : String) : Option Src :=
   | [p, n, a, k] => do
       let peer ← decB p; let name ← decB n; let act ← decAct a; let perms ← k.toNat?
       pure { peer := peer, name := name, act := act, perms := perms, prec := 0 }
+  | [p, n, a, k, q] => do   -- with the `Precedence` the client sent (an exported, writable field)
+      let peer ← decB p; let name ← decB n; let act ← decAct a; let perms ← k.toNat?; let prec ← q.toNat?
+      pure { peer := peer, name := name, act := act, perms := perms, prec := prec }
   | _ => none
 
 def encIxn (i : Ixn) : String :=
@@ -78,6 +82,11 @@ def step (st : Store) (toks : List String) : Store × String :=
     | some dst, some src, some act, some perms =>
       res (applyOpE st (.up dst { peer := [], name := src, act := act, perms := perms, prec := 0 }))
     | _, _, _, _ => (st, "bad-op")
+  | ["up", dst, src, act, perms, prec] =>
+    match decB dst, decB src, decAct act, perms.toNat?, prec.toNat? with
+    | some dst, some src, some act, some perms, some prec =>
+      res (applyOpE st (.up dst { peer := [], name := src, act := act, perms := perms, prec := prec }))
+    | _, _, _, _, _ => (st, "bad-op")
   | ["del", dst, src] =>
     match decB dst, decB src with
     | some dst, some src => res (applyOpE st (.del dst src))
